@@ -30,6 +30,8 @@ pub enum Case {
     Slot { curve: Curve, n1: usize, n2: usize, pt: Option<usize>, sc: Option<(usize, u8)>, via: Via },
     /// stream faults on deserialize_compressed(reader) / serialize_compressed(writer)
     Stream { curve: Curve, n1: usize, write: bool, fault: StreamFault },
+    /// a shape case executed by the companion binary that links /repo WITHOUT the hook feature
+    NoHooks { curve: String, gates: usize, nl: usize, nr: usize, via: String },
 }
 
 thread_local! {
@@ -233,6 +235,13 @@ pub fn run_case<G: AffineRepr>(run: u64, case: &Case, st: &mut Stats) {
             st.sample(run, json!({"kind": "slot", "curve": curve.name(), "gates": [n1, n2], "identity_at": pt, "scalar": scs}));
             st.log_digest(run, &bytes);
         }
+        Case::NoHooks { curve, gates, nl, nr, via } => {
+            for l in nohooks_run(&["one", curve, &gates.to_string(), &nl.to_string(), &nr.to_string(), via]).unwrap_or_default() {
+                if let Some(v) = nohooks_violation(run, &l) {
+                    st.violate(v);
+                }
+            }
+        }
         Case::Stream { curve, n1, write, fault } => {
             st.fault(fault.kind());
             let sc = base_session(*curve, *n1, 0);
@@ -285,6 +294,35 @@ pub fn run_case<G: AffineRepr>(run: u64, case: &Case, st: &mut Stats) {
             st.sample(run, json!({"kind": "stream", "curve": curve.name(), "write": write, "fault": fault}));
         }
     }
+}
+
+fn nohooks_bin() -> String {
+    format!("{}/sim-nohooks/target/release/bpsim-nohooks", std::env::var("VERIF_FIXTURES").unwrap_or_else(|_| "/verif".into()))
+}
+
+/// Run the companion binary (the crate under test built with the guard OFF).
+fn nohooks_run(args: &[&str]) -> Option<Vec<String>> {
+    let out = std::process::Command::new(nohooks_bin()).args(args).output().ok()?;
+    Some(String::from_utf8_lossy(&out.stdout).lines().map(|l| l.to_string()).collect())
+}
+
+fn nohooks_violation(run: u64, line: &str) -> Option<Violation> {
+    let rest = line.strip_prefix("PANIC ")?;
+    let (head, msg) = rest.split_once(" :: ")?;
+    let f: Vec<&str> = head.split_whitespace().collect();
+    if f.len() != 5 {
+        return None;
+    }
+    let (nl, nr): (usize, usize) = (f[2].parse().ok()?, f[3].parse().ok()?);
+    let rel = if nl < nr { "L<R" } else if nl > nr { "L>R" } else { "L=R" };
+    let cls = if nl != nr { "ipp-list-length-mismatch" } else { "shape-panic" };
+    Some(Violation {
+        run,
+        oracle: "no-panic (crate built without the hook feature)".into(),
+        signature: format!("{}:{}:{}:guard-off", cls, rel, f[4]),
+        detail: format!("with the verif-hooks guard OFF: |L|={} |R|={} against a {}-gate circuit on {} via {}: PANIC {}", nl, nr, f[1], f[0], f[4], msg),
+        case: to_value(&Case::NoHooks { curve: f[0].into(), gates: f[1].parse().ok()?, nl, nr, via: f[4].into() }),
+    })
 }
 
 /// Deterministic enumeration: run index -> case.
@@ -452,9 +490,34 @@ pub fn run(ctx: &Ctx) -> i32 {
         };
         let curve = match &case {
             Case::Bytes { curve, .. } | Case::Shape { curve, .. } | Case::Slot { curve, .. } | Case::Stream { curve, .. } => *curve,
+            Case::NoHooks { .. } => Curve::Secq,
         };
         with_curve!(curve, G, run_case::<G>(i, &case, st));
     });
+    // the same shape grid against the crate built with the guard OFF (what users link)
+    let mut stats = stats;
+    let mut nohooks_cases = 0u64;
+    match nohooks_run(&["grid", ctx.tier.name()]) {
+        Some(lines) if lines.iter().any(|l| l.starts_with("DONE ")) => {
+            for (li, l) in lines.iter().enumerate() {
+                if let Some(v) = nohooks_violation(total + li as u64, l) {
+                    stats.violate(v);
+                }
+                if let Some(r) = l.strip_prefix("DONE cases=") {
+                    nohooks_cases = r.split_whitespace().next().and_then(|x| x.parse().ok()).unwrap_or(0);
+                }
+            }
+            stats.evaluations += nohooks_cases;
+            stats.fault_n("F5-list-lengths(guard-off build)", nohooks_cases);
+            stats.probe("guard-off-build-exercised");
+        }
+        _ => {
+            if std::env::var("BPSIM_SELFTEST_SCALE").is_err() {
+                eprintln!("HARNESS ERROR: companion binary {} missing or failed (./check builds it)", nohooks_bin());
+                return 2;
+            }
+        }
+    }
     finish(
         ctx,
         stats,
@@ -469,8 +532,8 @@ pub fn run(ctx: &Ctx) -> i32 {
                 a
             },
             real_components: REAL.to_vec(),
-            simulated_components: vec!["hostile channel (RefCodec-assembled garbage)", "Read/Write stream wrappers", "counting allocator with cap", "child-process isolation + intent log"],
-            extra: json!({"grid_cases": ns, "slot_cases": nsl, "stream_cases": nst, "byte_string_cases": pl.n_bytes}),
+            simulated_components: vec!["hostile channel (RefCodec-assembled garbage)", "Read/Write stream wrappers", "counting allocator with cap", "child-process isolation + intent log", "companion binary sim-nohooks: the (|L|,|R|) grid against /repo built WITHOUT the verif-hooks feature (public API only)"],
+            extra: json!({"grid_cases": ns, "slot_cases": nsl, "stream_cases": nst, "byte_string_cases": pl.n_bytes, "guard_off_grid_cases": nohooks_cases}),
         },
     )
 }
@@ -480,6 +543,7 @@ pub fn replay(case: &Value) -> Vec<Violation> {
     let mut st = Stats::default();
     let curve = match &case {
         Case::Bytes { curve, .. } | Case::Shape { curve, .. } | Case::Slot { curve, .. } | Case::Stream { curve, .. } => *curve,
+        Case::NoHooks { .. } => Curve::Secq,
     };
     with_curve!(curve, G, run_case::<G>(0, &case, &mut st));
     st.violations
